@@ -112,3 +112,68 @@ Theorem C14_enumerateTables_is_translation :
     end.
 Proof. exact T.enumerateTables_is_translation. Qed.
 Print Assumptions C14_enumerateTables_is_translation.
+
+(** ---- the remaining control flow of acpi.go: probeForACPI and DriverInit ---- *)
+(** probeForACPI returns a device.Driver: nil, or &acpiDriver{rsdtAddr, useXSDT}.  gen/gotrans (config "ctor", a syntax-tree
+    rewrite) makes that the triple (false, 0, false) / (true, rsdtAddr, useXSDT).  [T.probe_result] is [T.locate_result] with
+    that triple in place of locateRSDT's results: a driver exactly for PFound - carrying exactly the root pointer and the
+    entry width the model's probe found -, no driver (nil) for errMissingRSDP and for a mapFn error, GPanic for a stray read;
+    the trace (mapFn / unmapFn calls) is locateRSDT's.  Hypotheses: those of C14_locateRSDT_is_translation (= of C14_rsdp_found). *)
+Theorem C14_probe_is_translation :
+  forall (m : mem) (low hi align : N) (pfail : option N) (tr0 : list gcall) (fuel : nat),
+    bytes_ok m -> low < two64 -> 0 < align -> hi + align <= two64 ->
+    (N.to_nat (T.locate_fuel low hi align) < fuel)%nat ->
+    go_acpi_probeForACPI fuel (mk_go_acpi_world tr0) (T.ld_of m) align hi low (T.o_map pfail (length tr0)) =
+    T.probe_result tr0 low (locateRSDT m low hi align pfail).
+Proof. exact T.probe_is_translation. Qed.
+Print Assumptions C14_probe_is_translation.
+
+(** DriverInit: enumerateTables; on an error return it; else printTableInfo and nil.  [drv.enumerateTables(w)] is the call of
+    the translated method (the receiver's rsdtAddr / useXSDT handed on); printTableInfo is NOT translated (it ranges over a Go
+    map and formats through kfmt): it is the seam event [T.ev_print] = GCall "printTableInfo" [].  Against the model's
+    [driverInit] (the function C14_registered_iff, C14_map_error_aborts, C14_reports_in_order ... are stated about), for
+    every image, failure pattern of identityMapFn, root pointer and entry width:
+    * model IOk: the translation returns nil, its last call is printTableInfo, and the trace before it stands for the model's
+      final state ([T.abs]);
+    * model IErrChecksum / IErrMap: the error is returned, printTableInfo is NOT called, the trace stands for the model's state;
+    * model IStray: either the translation panics (stray read during enumeration), or the stray read is one the model places
+      inside printTableInfo ([info_lines]) - behind the seam -, and the translation is as in the IOk case. *)
+Theorem C14_driverInit_is_translation :
+  forall (m : mem) (fail : N -> bool) (rsdt : N) (useXSDT : bool) (fuel : nat),
+    bytes_ok m -> rsdt < two64 -> (N.to_nat two32 <= fuel)%nat ->
+    let res := go_acpi_acpiDriver_DriverInit fuel (mk_go_acpi_world []) rsdt useXSDT (T.ld_of m) (T.o_idmap fail) in
+    match driverInit m fail rsdt useXSDT with
+    | (s, IOk, _) => exists tr, res = GOk (mk_go_acpi_world (T.ev_print :: tr), None) /\ T.abs tr = s
+    | (s, IStray _, _) => res = GPanic \/ exists tr, res = GOk (mk_go_acpi_world (T.ev_print :: tr), None) /\ T.abs tr = s
+    | (s, r, _) => exists tr, res = GOk (mk_go_acpi_world tr, T.err_of r) /\ T.abs tr = s
+    end.
+Proof. exact T.driverInit_is_translation. Qed.
+Print Assumptions C14_driverInit_is_translation.
+
+(** The whole path from the BIOS-area scan to the registered table map, as device detection runs it: [T.probe_then_init] is
+    the regenerated probeForACPI followed - when it returns a driver - by the regenerated DriverInit ON THE DRIVER IT
+    RETURNED and on the trace it left (a two-line Coq composition of the two regenerated terms; hal's driver loop itself is
+    C16's subject).  Its result is (driver returned?, DriverInit's error).  For every image, window, alignment, mapFn failure
+    and identityMapFn failure pattern:
+    * the model's probe finds (root, useXSDT): the outcome is DriverInit's, as above, for exactly that root and width, the final
+      trace standing for the model's [driverInit m fail root useXSDT] state (the probe's mapFn / unmapFn calls do not count);
+    * errMissingRSDP or a mapFn error: no driver, nothing enumerated (the trace stands for the initial state);
+    * a stray read during the scan: panic. *)
+Theorem C14_probe_then_init_is_translation :
+  forall (m : mem) (low hi align : N) (pfail : option N) (fail : N -> bool) (fuel : nat),
+    bytes_ok m -> low < two64 -> 0 < align -> hi + align <= two64 ->
+    (N.to_nat (T.locate_fuel low hi align) < fuel)%nat -> (N.to_nat two32 <= fuel)%nat ->
+    let res := T.probe_then_init fuel [] (T.ld_of m) align hi low (T.o_map pfail 0) (T.o_idmap fail) in
+    match locateRSDT m low hi align pfail with
+    | (PFound root x, _, _) =>
+        match driverInit m fail root x with
+        | (s, IOk, _) => exists tr, res = GOk (mk_go_acpi_world (T.ev_print :: tr), (true, None)) /\ T.abs tr = s
+        | (s, IStray _, _) => res = GPanic \/ exists tr, res = GOk (mk_go_acpi_world (T.ev_print :: tr), (true, None)) /\ T.abs tr = s
+        | (s, r, _) => exists tr, res = GOk (mk_go_acpi_world tr, (true, T.err_of r)) /\ T.abs tr = s
+        end
+    | (PMissing, _, _) | (PMapErr, _, _) => exists tr, res = GOk (mk_go_acpi_world tr, (false, None)) /\ T.abs tr = state0
+    | (PStray _, _, _) => res = GPanic
+    | (PFuel, _, _) => False
+    end.
+Proof. exact T.probe_then_init_is_translation. Qed.
+Print Assumptions C14_probe_then_init_is_translation.
